@@ -33,7 +33,7 @@ NOT_APPLICABLE = {}
 
 CORE_TEXT = (' Imported core-protocol obligations (every behavioural property of the container rests on the same debt / helping '
              'protocol, so a change that breaks one of these breaks this property too): PUBLISH-CONFIRM, INTENT-FIRST, '
-             'PAY-BEFORE-RELEASE, COVER-ALL + RAII-SPAN, CLAIM-EMPTY, PAY-CAS, PAY-USED, SLOT-CLOSED, INUSE-FSM, REUSE-FIRST, NEXT-ONCE, '
+             'PAY-BEFORE-RELEASE, COVER-ALL + RAII-SPAN, LOCK-SPAN (reference strategy), CLAIM-EMPTY, PAY-CAS, PAY-USED, SLOT-CLOSED, INUSE-FSM, REUSE-FIRST, NEXT-ONCE, '
              'COOLDOWN-OWNED, NODE-STABLE, ADDR-GUARD + GEN-REVALIDATE + REPLACEMENT-FRESH, ADDR-BEFORE-GEN, OWN-STORAGE, MP, RMW-ONLY, '
              'LEDGER + INC-PROTECTED, BYPASS.')
 
@@ -42,11 +42,11 @@ def _core(fx, col):
     for r in (R.rule_publish_confirm, R.rule_intent_first, R.rule_pay_before_release, R.rule_cover_all, R.rule_claim_empty,
               O.rule_pay_cas, R.rule_pay_used, R.rule_slot_closed, O.rule_inuse_fsm, N.rule_reuse_first, P.rule_next_once,
               T.rule_cooldown_owned, T.rule_node_stable, I.rule_addr_guard, I.rule_addr_before_gen, I.rule_own_storage,
-              O.rule_mp, O.rule_rmw_only, L.rule_ledger, L.rule_bypass):
+              O.rule_mp, O.rule_rmw_only, L.rule_ledger, L.rule_bypass, A.rule_lock_span):
         r(fx, col)
 
 
-CORE_PROPS = ('C01', 'C02', 'C03', 'C04', 'C05', 'C06', 'C07', 'C10', 'C11', 'C12', 'C14', 'C16', 'C17', 'C20')
+CORE_PROPS = ('C01', 'C02', 'C03', 'C04', 'C05', 'C06', 'C07', 'C10', 'C11', 'C12', 'C14', 'C15', 'C16', 'C17', 'C20')
 
 
 def prop(pid, title, rules, explanation, not_decided, **kw):
